@@ -125,6 +125,7 @@ fn run1<T: Flt>(src: &mut Src, obs: &mut Obs) -> Result<(), Fail> {
     }
     // trailing shape: none, one axis, or two / three axes (per-lane boundary arrays of rank >= 3)
     let trailing: Vec<usize> = match src.below(6) {
+        0 if n <= 6 && src.chance(1, 8) => vec![src.usize_in(32, 40)],
         0 => vec![],
         1 | 2 => vec![src.usize_in(1, 4)],
         3 => vec![2, src.usize_in(1, 2)],
